@@ -1,6 +1,7 @@
 use crate::command::handlers::query::QueryExecutionPipeline;
 use crate::command::handlers::query::QueryResponseWriter;
 use crate::command::types::Command;
+use crate::engine::auth::{AuthManager, BYPASS_USER_ID};
 use crate::engine::schema::SchemaRegistry;
 use crate::engine::shard::manager::ShardManager;
 use crate::shared::response::render::Renderer;
@@ -23,6 +24,45 @@ pub async fn handle<W: AsyncWrite + Unpin>(
     writer: &mut W,
     renderer: &dyn Renderer,
 ) -> std::io::Result<()> {
+    handle_as(cmd, shard_manager, registry, None, None, writer, renderer).await
+}
+
+/// `handle` for an authenticated caller: REPLAY returns events, so it needs the same read
+/// permission as QUERY - for the named event type, or for every defined event type when the
+/// whole context is replayed.
+pub async fn handle_as<W: AsyncWrite + Unpin>(
+    cmd: &Command,
+    shard_manager: &ShardManager,
+    registry: &Arc<RwLock<SchemaRegistry>>,
+    auth_manager: Option<&Arc<AuthManager>>,
+    user_id: Option<&str>,
+    writer: &mut W,
+    renderer: &dyn Renderer,
+) -> std::io::Result<()> {
+    if let (Some(auth_mgr), Command::Replay { event_type, .. }) = (auth_manager, cmd) {
+        let Some(uid) = user_id else {
+            warn!(target: "sneldb::replay", "Authentication required for REPLAY command");
+            let resp = Response::error(StatusCode::Unauthorized, "Authentication required");
+            return writer.write_all(&renderer.render(&resp)).await;
+        };
+        if uid != BYPASS_USER_ID {
+            let wanted: Vec<String> = match event_type {
+                Some(t) => vec![t.clone()],
+                None => registry.read().await.get_all().keys().cloned().collect(),
+            };
+            for t in &wanted {
+                if !auth_mgr.can_read(uid, t).await {
+                    warn!(target: "sneldb::replay", user_id = uid, event_type = t, "Read permission denied");
+                    let resp = Response::error(
+                        StatusCode::Forbidden,
+                        &format!("Read permission denied for event type '{}'", t),
+                    );
+                    return writer.write_all(&renderer.render(&resp)).await;
+                }
+            }
+        }
+    }
+
     let Command::Replay {
         event_type,
         context_id,
